@@ -967,6 +967,22 @@ def fam_faults(rng, n, dist, thorough=False):
             scn["exp"] = [dict(e, throws=False, may_throw=False, check_open=False) for e in scn["exp"]]
             dist.add("fault:garbled-%d-reply" % (229 if rfc else 227))
             out.append(scn)
+    # the server opens (active) / accepts (passive) the data connection, resets it at once and still answers the transfer
+    # command positively: the client finds a dead socket at accept / at its first read - an ftp_exception like any other
+    for k in range(8 if not thorough else 16):
+        mode, rfc = ALL_METHODS[k % 4]
+        b = S.Builder(rng, mode, rfc, type=rng.choice("IA"))
+        b.connect(login=(b"u", b"p"))
+        kind = "F" if k % 3 == 2 else "D"
+        ci = b.transfer(kind, b"f.bin" if kind == "D" else None, payload_segs=[], end="R", completion="now")
+        if ci in b.xfer_map:
+            si, ri = b.xfer_map[ci]
+            b.sessions[si]["reactions"][ri]["data"]["reset_first"] = True
+        b.disconnect(False)
+        scn = b.scenario()
+        scn["exp"] = [dict(e, throws=False, may_throw=True, check_open=False) for e in scn["exp"]]
+        dist.add("fault:data-connection-reset-before-the-positive-reply:%s" % ("active" if mode == "A" else "passive"))
+        out.append(scn)
     return out
 
 
